@@ -317,6 +317,9 @@ def check(rep, suffix, families, floor):
                  'nothing, a store writes each of the SIZE bytes once and nothing else', floor=floor, unit='(expansion, size) partitions')
     T = rep.rule('R-TAIL-SIZE-' + suffix, 'at every such expansion, offset of the base pointer + SIZE = len@entry (whole-function linear forms): the byte-granular tail covers exactly the bytes that remain', floor=floor // 33,
                  unit='expansions')
+    G = rep.rule('R-TAIL-RANGE-' + suffix, 'at every such expansion the SIZE register lies in 0..32 on every path that reaches it (constant intervals of the count register with branch refinement and widening, '
+                 'tools/remint.py): the block dispatch in front of the tail never hands it more than the one vector it can move', floor=max(1, floor // 33), unit='expansions')
+    import remint
     res, _ = provenance.analyse('default')
     nk = 0
     for sym, info in sorted(res.items()):
@@ -328,6 +331,18 @@ def check(rep, suffix, families, floor):
             continue
         nk += 1
         lenreg = LEN_ARG[info['fam']['family']]
+        RI = remint.RemInt(u, f, lenreg)
+        RI.run()
+        for s_ in sm:
+            stR = RI.IN.get(s_['first'])
+            v = stR['r'].get(s_['size_reg']) if stR is not None and s_['size_reg'] not in stR['src'] else None
+            if v is None or v[0] == -remint.inf or v[1] == remint.inf:
+                G.notes.append('%s: %s expansion at %s: SIZE not bounded by the interval domain (not decided)' % (sym, s_['kind'], u.where(u.insns[s_['first']], f)))
+                continue
+            G.instance()
+            G.check(0 <= v[0] and v[1] <= 32, '%s: %s' % (u.name, u.where(u.insns[s_['first']], f)), '%s: the %s expansion is reached with SIZE in [%d, %d]; the macro moves at most one 32-byte vector (it tests the '
+                    'bits of SIZE below 32), so the bytes beyond it are neither multiplied nor stored' % (sym, s_['kind'], v[0], v[1]), key='R-TAIL-RANGE|%s|%#x' % (sym, s_['first'] - f.entry),
+                    sample='%s: SIZE in [%d, %d]' % (sym, v[0], v[1]) if sym.startswith('gf_2vect') else None)
         L = asmlin.Lin(u, f)
         L.auto_pairs = True
         L.run()
